@@ -509,6 +509,7 @@ fn run_one(payload: &str) -> String {
             // order) starting from a cold formatter cache, released together by a barrier
             let barrier = std::sync::Barrier::new(threads);
             let n = reqs.len();
+            let _ = take_counter_log();
             let results: Vec<Vec<String>> = std::thread::scope(|sc| {
                 let handles: Vec<_> = (0..threads)
                     .map(|t| {
@@ -532,6 +533,16 @@ fn run_one(payload: &str) -> String {
                     .collect()
             });
             let mut outs = results[0].clone();
+            // formatters with per-instance state (`cnt…` tags): ONE instance per tag served all threads, so the numbers it
+            // handed out are consecutive (a second instance for the same bundle and arguments repeats numbers)
+            for (tag, ks) in take_counter_log() {
+                if ks.windows(2).any(|w| w[1] != w[0] + 1) {
+                    if let Some(first) = outs.first_mut() {
+                        first.push_str(&format!(" THREADS-DISAGREE(the counting formatter {} handed out the numbers {:?}: more than one instance served this bundle)", tag, &ks[..ks.len().min(12)]).replace(';', ","));
+                    }
+                    break;
+                }
+            }
             for (t, r) in results.iter().enumerate().skip(1) {
                 for i in 0..n {
                     if r[i] != results[0][i] {
@@ -558,7 +569,24 @@ fn run_one(payload: &str) -> String {
             let b2 = fresh(&chain2);
             let ref2: Vec<String> = reqs.iter().map(|r| answer(&b2, r, None)).collect();
             let mut bad: Option<String> = None;
+            // the second bundle answers next to a LIVE, warmed-up first bundle: it must give what a single-thread bundle of
+            // its own locale gives (the two may share a language - pt / pt-PT - but not their formatters)
+            {
+                let mut st2: RawBundle<FluentResource, intl_memoizer::IntlLangMemoizer> = RawBundle::new(chain2.clone());
+                let _ = configure(&mut st2, cfg, ress, fns);
+                let ref2_st: Vec<String> = reqs.iter().map(|r| answer(&st2, r, None)).collect();
+                if ref2_st != ref2 {
+                    let i = (0..ref2.len()).find(|i| ref2_st.get(*i) != ref2.get(*i)).unwrap_or(0);
+                    bad = Some(format!(
+                        " DUO-DISAGREE(bundle {} request {}: single-thread bundle {} / concurrent bundle created while the {} bundle is alive {})",
+                        kv(cfg, "loc2"), i, ref2_st.get(i).cloned().unwrap_or_default(), kv(cfg, "loc"), ref2.get(i).cloned().unwrap_or_default()
+                    ).replace(';', ","));
+                }
+            }
             for round in 0..rounds {
+                if bad.is_some() {
+                    break;
+                }
                 let (x1, x2) = (fresh(&chain), fresh(&chain2));
                 let go = std::sync::atomic::AtomicUsize::new(0);
                 let run = |x: &RawBundle<FluentResource, intl_memoizer::concurrent::IntlLangMemoizer>| -> Vec<String> {
